@@ -36,6 +36,9 @@ def configs(tier):
     # pickled by the queue's feeder thread, later than the put); a reprojection function that cannot be pickled
     cfgs.append(stages.MultiTan(nimg=3, W=2, from_files=True, max_deviations=2 if tier == "quick" else None))
     cfgs.append(stages.MultiWcs(nimg=2, W=2, closure_reproject=True))
+    # one multi-extension file listed once per extension; segments without any data ahead of one with data
+    cfgs.append(stages.MultiTan(nimg=3, W=2, from_files=True, mef=True, max_deviations=2 if tier == "quick" else None))
+    cfgs.append(stages.MultiWcs(nimg=3, W=2, nan_images=(0, 1), max_deviations=3 if tier == "quick" else None))
     # top-down tile formats take other branches of the multi-WCS placement code
     cfgs.append(stages.MultiWcs(nimg=2, W=2, fmt="npy"))
     # wide item sets (16 384 leaves / 5 461 tiles), default schedule only, cut at a horizon in the quick tier
